@@ -91,7 +91,7 @@ theorem explodeLoop_spec (sh : Shard) :
           rw [hr] at hr'; cases hr'
           subst hc
           subst hl
-          obtain ⟨b2, ds', hadd, hbi2, hfl2, hg2, hds'⟩ := add_spec sh.langs b [] r ds0 (by simpa using hg) hbi d hdoc'
+          obtain ⟨b2, ds', hadd, hbi2, hfl2, hg2, hds', _⟩ := add_spec sh.langs b [] r ds0 (by simpa using hg) hbi d hdoc'
           simp only [hadd]
           have hne2 : NE b2 := by
             intro g hgm; rw [hg2] at hgm; simp at hgm; subst hgm; exact hds'
@@ -107,7 +107,7 @@ theorem explodeLoop_spec (sh : Shard) :
         unfold Builder.setRepository
         have hlen : ¬ r.branches.length > 64 := by have := hdoc'.br_len; omega
         simp only [hlen, if_false]
-        obtain ⟨b2, ds', hadd, hbi2, hfl2, hg2, hds'⟩ :=
+        obtain ⟨b2, ds', hadd, hbi2, hfl2, hg2, hds', _⟩ :=
           add_spec sh.langs { groups := [] ++ [(r, [])], langs := [] } [] r [] rfl
             (BI_setRepository ⟨[], []⟩ r BI_empty ht) d hdoc'
         simp only [hadd]
